@@ -30,6 +30,9 @@ func findLookup(p *Prog) (*lookupInfo, error) {
 	li := &lookupInfo{Wrappers: map[*ssa.Function]string{}}
 	for _, cs := range p.StdCallees["strings.EqualFold"] {
 		f := cs.Caller
+		if f.Parent() != nil {
+			f = f.Parent() // the predicate closure of a slices.IndexFunc / ContainsFunc search
+		}
 		if len(f.Params) == 2 && kindOf(f.Params[0].Type()) == KSlice && isStringType(f.Params[1].Type()) && f.Signature.Results().Len() == 2 {
 			li.Lookup = f
 		}
@@ -55,6 +58,95 @@ func findLookup(p *Prog) (*lookupInfo, error) {
 	return li, nil
 }
 
+type indexFuncForm struct {
+	call  *ssa.Call
+	probs []string
+}
+
+// indexFuncLookup recognises f(list, probe) built on slices.IndexFunc(list, pred) where pred is a closure
+// of f returning exactly strings.EqualFold(element, probe).
+func indexFuncLookup(p *Prog, f *ssa.Function) *indexFuncForm {
+	for _, b := range f.Blocks {
+		for _, in := range b.Instrs {
+			c, ok := in.(*ssa.Call)
+			if !ok || c.Call.StaticCallee() == nil {
+				continue
+			}
+			callee := c.Call.StaticCallee()
+			base := callee.Name()
+			if o := callee.Origin(); o != nil {
+				base = o.Name()
+			}
+			pkg := ""
+			if o := callee.Origin(); o != nil && o.Pkg != nil {
+				pkg = o.Pkg.Pkg.Path()
+			}
+			if pkg != "slices" || base != "IndexFunc" || len(c.Call.Args) != 2 {
+				continue
+			}
+			res := &indexFuncForm{call: c}
+			if c.Call.Args[0] != ssa.Value(f.Params[0]) {
+				res.probs = append(res.probs, "the search does not run over the list parameter")
+			}
+			mc, ok := c.Call.Args[1].(*ssa.MakeClosure)
+			if !ok {
+				res.probs = append(res.probs, "the predicate of the search is not a local closure")
+				return res
+			}
+			pred := mc.Fn.(*ssa.Function)
+			okPred := len(pred.Blocks) == 1
+			if okPred {
+				ret, isRet := pred.Blocks[0].Instrs[len(pred.Blocks[0].Instrs)-1].(*ssa.Return)
+				okPred = false
+				if isRet && len(ret.Results) == 1 {
+					if ef, ok := ret.Results[0].(*ssa.Call); ok && ef.Call.StaticCallee() != nil && ef.Call.StaticCallee().String() == "strings.EqualFold" {
+						probeOK, elemOK := false, false
+						for _, a := range ef.Call.Args {
+							if a == ssa.Value(pred.Params[0]) {
+								elemOK = true
+							}
+							fvOf := a
+							byRef := false
+							if ld, ok := a.(*ssa.UnOp); ok && ld.Op == token.MUL {
+								fvOf, byRef = ld.X, true
+							}
+							if fv, ok := fvOf.(*ssa.FreeVar); ok {
+								for i, v := range pred.FreeVars {
+									if v != fv || i >= len(mc.Bindings) {
+										continue
+									}
+									if !byRef && mc.Bindings[i] == ssa.Value(f.Params[1]) {
+										probeOK = true
+									}
+									if al, ok := mc.Bindings[i].(*ssa.Alloc); ok && byRef {
+										// the parameter spilled to a cell: exactly one store, of the parameter
+										n, okStore := 0, false
+										for _, rr := range *al.Referrers() {
+											if st, ok := rr.(*ssa.Store); ok && st.Addr == ssa.Value(al) {
+												n++
+												okStore = st.Val == ssa.Value(f.Params[1])
+											}
+										}
+										if n == 1 && okStore {
+											probeOK = true
+										}
+									}
+								}
+							}
+						}
+						okPred = probeOK && elemOK
+					}
+				}
+			}
+			if !okPred {
+				res.probs = append(res.probs, "the predicate is not exactly strings.EqualFold(element, probe)")
+			}
+			return res
+		}
+	}
+	return nil
+}
+
 // ruleK1: shape of the list lookup and of its wrappers (shared by C09, C07 and C12).
 func ruleK1(p *Prog, r *Report) *lookupInfo {
 	r.Rule("K1", "necessary", 4, "the list lookup is one full forward scan that compares every list element with the probe by strings.EqualFold and, on success, returns the list element (never the probe); nothing ends an iteration before the comparison; every wrapper passes a table getter's fresh result as the list")
@@ -67,6 +159,59 @@ func ruleK1(p *Prog, r *Report) *lookupInfo {
 	r.Funcs[p.shortKey(f)] = true
 	bp := newBoundsProver(p, sharedEngineLite(p))
 	fb := bp.forFn(f)
+	// K1, search-function form: i := slices.IndexFunc(list, func(e) bool { return EqualFold(e, probe) });
+	// success is i >= 0 and returns list[i]. The library function scans forward over the whole slice.
+	if idx := indexFuncLookup(p, f); idx != nil {
+		var probs []string
+		trueRets := 0
+		for _, b := range f.Blocks {
+			ret, ok := b.Instrs[len(b.Instrs)-1].(*ssa.Return)
+			if !ok {
+				continue
+			}
+			c, isC := ret.Results[0].(*ssa.Const)
+			if isC && c.Value != nil && c.Value.String() == "false" {
+				continue
+			}
+			trueRets++
+			okElem := false
+			if ld, ok := ret.Results[1].(*ssa.UnOp); ok && ld.Op == token.MUL {
+				if ia, ok := ld.X.(*ssa.IndexAddr); ok && ia.X == ssa.Value(f.Params[0]) && ia.Index == ssa.Value(idx.call) {
+					okElem = true
+				}
+			}
+			if !okElem {
+				probs = append(probs, fmt.Sprintf("%s: on success the lookup returns %s, not the list element the search found", p.pos(ret.Pos()), describe(ret.Results[1])))
+			}
+			guarded := false
+			for cf := range fb.facts[b.Index] {
+				bo, ok := cf.c.(*ssa.BinOp)
+				if !ok {
+					continue
+				}
+				k, isK := bo.Y.(*ssa.Const)
+				if bo.X != ssa.Value(idx.call) || !isK || k.Value == nil {
+					continue
+				}
+				kv := k.Value.ExactString()
+				if (bo.Op == token.GEQ && kv == "0" && cf.pol) || (bo.Op == token.LSS && kv == "0" && !cf.pol) || (bo.Op == token.GTR && kv == "-1" && cf.pol) || (bo.Op == token.NEQ && kv == "-1" && cf.pol) || (bo.Op == token.EQL && kv == "-1" && !cf.pol) {
+					guarded = true
+				}
+			}
+			if !guarded {
+				probs = append(probs, fmt.Sprintf("%s: success is not decided by 'the search found an index'", p.pos(ret.Pos())))
+			}
+		}
+		if trueRets == 0 {
+			probs = append(probs, "no success return found")
+		}
+		probs = append(probs, idx.probs...)
+		if len(probs) > 0 {
+			r.Bad("K1", p.shortKey(f), p.pos(f.Pos()), strings.Join(probs, "; "))
+		} else {
+			r.OK("K1", p.shortKey(f), p.pos(f.Pos()), "slices.IndexFunc with an EqualFold predicate; returns list spelling", "", true)
+		}
+	} else
 	// K1: returns
 	{
 		var probs []string
@@ -285,9 +430,38 @@ func rulesC09(p *Prog, r *Report) {
 	qz := &quantizer{p: p, elemVar: map[ssa.Value]string{}}
 	canonical := regexp.MustCompile(`^(\*?\(\*spdxexp\.node\)\.(license|exception|licenseRef|documentRef|reconstructedLicenseString)\(.*\)|.*\.lic\.(license|exception)|.*\.ref\.(licenseRef|documentRef)|spdxexp\.simplifyLicense\(.*\)|elem\(elem\(elem\(spdxexp/spdxlicenses\.LicenseRanges\(\)\)\)\)|\*local)$`)
 	n := 0
+	// scope: everything the two pair matchers can reach (static calls and closures), wherever it lives;
+	// the list lookup and its predicate closure compare the caller's spelling by design (K1)
+	inScope := map[*ssa.Function]bool{}
+	{
+		var walk func(f *ssa.Function)
+		walk = func(f *ssa.Function) {
+			if f == nil || inScope[f] || !p.InModule(f) || f == li.Lookup || f.Parent() == li.Lookup {
+				return
+			}
+			inScope[f] = true
+			for _, b := range f.Blocks {
+				for _, in := range b.Instrs {
+					if ci, ok := in.(ssa.CallInstruction); ok {
+						walk(ci.Common().StaticCallee())
+						for _, a := range ci.Common().Args {
+							if mc, ok := a.(*ssa.MakeClosure); ok {
+								walk(mc.Fn.(*ssa.Function))
+							}
+						}
+					}
+					if mc, ok := in.(*ssa.MakeClosure); ok {
+						walk(mc.Fn.(*ssa.Function))
+					}
+				}
+			}
+		}
+		for _, n := range []string{"(*nodePair).licensesAreCompatible", "(*nodePair).licenseRefsAreCompatible"} {
+			walk(p.Func(p.ExpPkg, n))
+		}
+	}
 	for _, fn := range p.RList {
-		file := strings.Split(p.pos(fn.Pos()), ":")[0]
-		if !(strings.HasSuffix(file, "compare.go") || strings.HasSuffix(file, "node.go") || strings.HasSuffix(file, "license.go")) || fn == li.Lookup {
+		if !inScope[fn] {
 			continue
 		}
 		for _, b := range fn.Blocks {
